@@ -297,11 +297,11 @@ func (w *kqueue) remove(name string, unwatchFiles bool) error {
 		return fmt.Errorf("%w: %s", ErrNonExistentWatch, name)
 	}
 
+	// Closing the descriptor removes its kevents whether or not EV_DELETE
+	// succeeded: it fails with EBADF once the reader has exited and closed the
+	// kqueue, which can happen while Close() is still removing the watches.
+	// Don't keep the descriptor (and the table entries) in that case.
 	err := w.register([]int{info.wd}, unix.EV_DELETE, 0)
-	if err != nil {
-		return err
-	}
-
 	unix.Close(info.wd)
 
 	isDir := w.watches.remove(info.wd, name)
@@ -316,7 +316,7 @@ func (w *kqueue) remove(name string, unwatchFiles bool) error {
 			w.remove(name, true)
 		}
 	}
-	return nil
+	return err
 }
 
 func (w *kqueue) WatchList() []string {
